@@ -8,7 +8,7 @@ oracle: on the implementation: (i) dialect spellings planted in every container 
         not-supported / parse error or yields text that this dialect re-parses and re-prints identically."""
 import json
 
-from .. import core, sqlgen, stmt
+from .. import core, sqlgen, stmt, stgen
 from . import c01
 
 PROP = "C13"
@@ -91,6 +91,14 @@ def run(run):
             "CREATE TABLE t (a INT(11) NOT NULL COMMENT 'c') COMMENT='x'", "INSERT OVERWRITE TABLE t SELECT a FROM u", "SELECT CAST(a[1] AS STRING) FROM t",
             "SELECT f(a % 2, CASE WHEN b[0] THEN 1 END) FROM t", "ANALYZE TABLE t COMPUTE STATISTICS", "SELECT CURRENT_DATE FROM t", "SELECT a || b FROM t",
             "SELECT sum(a % 2) OVER (PARTITION BY b[0]) FROM t", "SELECT 1 FROM t WHERE a IN (SELECT b % 2 FROM u)", "ALTER TABLE t ADD PARTITION (dt='1')"]
+    base += ["CREATE TABLE t (a INT UNSIGNED ZEROFILL NOT NULL AUTO_INCREMENT COMMENT 'c', b TIMESTAMP NULL DEFAULT CURRENT_TIMESTAMP ON UPDATE CURRENT_TIMESTAMP, "
+             "c VARCHAR(10) CHARACTER SET utf8 COLLATE utf8_bin DEFAULT 'x', d INT GENERATED ALWAYS AS (a + 1) STORED COMMENT 'g', PRIMARY KEY (a), KEY k1 (c(4)) USING BTREE) "
+             "ENGINE=InnoDB AUTO_INCREMENT=7 DEFAULT CHARSET=utf8 COMMENT='t'",
+             "ALTER TABLE t MODIFY b DATETIME NOT NULL ON UPDATE CURRENT_TIMESTAMP COMMENT 'm'", "ALTER TABLE t ADD c2 DECIMAL(10, 2) UNSIGNED DEFAULT 0",
+             "CREATE TABLE h (a STRING COMMENT 'x', b DECIMAL(10,2)) COMMENT 'h' PARTITIONED BY (dt STRING COMMENT 'p') ROW FORMAT SERDE 's' STORED AS TEXTFILE LOCATION '/p' TBLPROPERTIES ('k'='v')",
+             "SELECT a FROM t WHERE d < CURRENT_DATE ORDER BY CURRENT_TIMESTAMP", "SELECT 1 FROM t WHERE a BETWEEN CURRENT_DATE AND b GROUP BY CURRENT_TIME"]
+    g = stgen.G(run.rng)
+    base += [g.create_table()[0] for _ in range(8 if tier_q else 60)] + [g.alter()[0] for _ in range(4 if tier_q else 30)]
     extra = [s for _, s in stmt.gen_cases(run, ["HIVE", "MYSQL"], 20 if tier_q else 400, with_corpus=False)]
     for pd in (["HIVE", "MYSQL", "DEFAULT"] if tier_q else stmt.DIALECTS):
         for qd in stmt.DIALECTS:
